@@ -2803,16 +2803,20 @@ define_struct_type(InterrogateType &itype, CPPStructType *cpptype,
       }
 
     } else if ((*di)->get_subtype() == CPPDeclaration::ST_make_property) {
-      ElementIndex element_index = get_make_property((*di)->as_make_property(), cpptype, scope);
-      if (element_index != 0 &&
-          find(itype._elements.begin(), itype._elements.end(), element_index) == itype._elements.end()) {
-        itype._elements.push_back(element_index);
+      if ((*di)->_vis <= min_vis) {
+        ElementIndex element_index = get_make_property((*di)->as_make_property(), cpptype, scope);
+        if (element_index != 0 &&
+            find(itype._elements.begin(), itype._elements.end(), element_index) == itype._elements.end()) {
+          itype._elements.push_back(element_index);
+        }
       }
 
     } else if ((*di)->get_subtype() == CPPDeclaration::ST_make_seq) {
-      MakeSeqIndex make_seq_index = get_make_seq((*di)->as_make_seq(), cpptype);
-      if (make_seq_index != 0) {
-        itype._make_seqs.push_back(make_seq_index);
+      if ((*di)->_vis <= min_vis) {
+        MakeSeqIndex make_seq_index = get_make_seq((*di)->as_make_seq(), cpptype);
+        if (make_seq_index != 0) {
+          itype._make_seqs.push_back(make_seq_index);
+        }
       }
     }
   }
